@@ -862,7 +862,7 @@ class DFA:
                         local_symbolset |= i.compute_foreign_else_definition(condition_point)
                     for symbol in local_symbolset:
                         transition = i[symbol]
-                        if transition in visited:
+                        if transition is None or transition in visited:
                             continue
                         visited.add(transition)
                         if not transition.error_handling:
@@ -938,13 +938,13 @@ class DFA:
                     for j in relevant_values.copy():
                         if sub_state[j] is not None and not sub_state[j].error_handling:
                             relevant_values.remove(j)
-                elif not all(x.error_handling or x.target == transition.target for x in targets):
+                elif not all(x is None or x.error_handling or x.target == transition.target for x in targets):
                     if ProgramData.dump(DebugDumpable.DFA) and ProgramData.do(ProgramFlag.VERBOSE_AMBIG_ERRORS): # pragma: no cover
                         debug_dump_dfa(self, "ae_dfa2", highlight=sub_state)
                         debug_dump_dfa(chained_dfa, "ae_dfa1")
                     dprint[ProgramFlag.VERBOSE_AMBIG_ERRORS]("TT", transition)
                     dprint[ProgramFlag.VERBOSE_AMBIG_ERRORS]("TA", targets)
-                    targets = [x for x in targets if not x.error_handling and x.target != transition.target]
+                    targets = [x for x in targets if x is not None and not x.error_handling and x.target != transition.target]
                     dprint[ProgramFlag.VERBOSE_AMBIG_ERRORS]("TAF", targets)
                     dprint[ProgramFlag.VERBOSE_AMBIG_ERRORS]("RV", relevant_values)
                     for i in relevant_values:
